@@ -328,7 +328,9 @@ impl WatchState {
             }
             stats.0 += 1;
             pending = true;
-            if m.cfg.bundle && !m.unloadable_deps().is_empty() {
+            // the listed finding of the API-level monitor: a dependency that could not be loaded and was then repaired
+            // by writing that very file
+            if m.cfg.bundle && !m.repaired_directly.is_empty() {
                 dep_trouble = true;
             }
         }
